@@ -143,23 +143,25 @@ def compare(schema, data):
     return ""
 
 
-def make_schema(src, default, recursion):
+def make_schema(src, default, recursion, dep=1):
     if src == 1:
         return code_schema()
-    return build_schema(S.render(S.base_record(dict(desc=True, dep=True, default=default, recursion=recursion, present=0x3F))))
+    return build_schema(S.render(S.base_record(dict(desc=True, dep=dep, default=default, recursion=recursion, present=0x3F))))
 
 
-def _introspect(src: int, default: int, recursion: int, cfg: int) -> bool:
+def _introspect(src: int, default: int, recursion: int, cfg: int, dep: int = 1) -> bool:
     """
-    pre: 0 <= src <= 1 and 0 <= default < len(S.DEFAULT_KINDS) and 0 <= recursion <= 3 and 0 <= cfg <= 1
+    pre: 0 <= src <= 1 and 0 <= default < len(S.DEFAULT_KINDS) and 0 <= recursion <= 3 and 0 <= cfg <= 1 and 0 <= dep <= 2
+    pre: dep == 1 or default == 0 or thorough()
     pre: shard_of(default)
     post: _
     """
     SRC, D, R, C = concrete_int(src, 0, 1), concrete_int(default, 0, len(S.DEFAULT_KINDS) - 1), concrete_int(recursion, 0, 3), concrete_int(cfg, 0, 1)
-    if SRC == 1 and (D or R):
+    DEP = concrete_int(dep, 0, 2)
+    if SRC == 1 and (D or R or DEP != 1):
         return result(True, False)
     with untraced():
-        schema = make_schema(SRC, D, R)
+        schema = make_schema(SRC, D, R, DEP)
         if C == 0:
             res = graphql_blocking(schema, introspection_query())
         else:
@@ -170,27 +172,45 @@ def _introspect(src: int, default: int, recursion: int, cfg: int) -> bool:
     return result(problem == "", True)
 
 
-def _deprecated_filter(src: int, include: int) -> bool:
+INCLUDES = (("", None), ("(includeDeprecated: false)", None), ("(includeDeprecated: true)", None), ("(includeDeprecated: $inc)", False), ("(includeDeprecated: $inc)", True),
+            ("(includeDeprecated: $inc)", "omitted"))
+
+
+def _deprecated_filter(src: int, include: int, dep: int, via_type: bool) -> bool:
     """
-    pre: 0 <= src <= 1 and 0 <= include <= 2
+    pre: 0 <= src <= 1 and 0 <= include < len(INCLUDES) and 0 <= dep <= 2
     post: _
     """
-    SRC, INC = concrete_int(src, 0, 1), concrete_int(include, 0, 2)
+    SRC, INC, DEP = concrete_int(src, 0, 1), concrete_int(include, 0, len(INCLUDES) - 1), concrete_int(dep, 0, 2)
+    VT = True if via_type else False
     with untraced():
-        schema = make_schema(SRC, 0, 0)
-        arg = ("", "(includeDeprecated: false)", "(includeDeprecated: true)")[INC]
-        q = "{ __schema { types { name fields%s { name isDeprecated } enumValues%s { name isDeprecated } } } }" % (arg, arg)
-        res = graphql_blocking(schema, q)
-        if res.errors:
-            return result(False, True)
-        exp = expected_types(schema, include_deprecated=(INC == 2))
-        ok = True
-        for t in res.data["__schema"]["types"]:
+        schema = make_schema(SRC, 0, 0, DEP)
+        arg, var = INCLUDES[INC]
+        decl = "query ($inc: Boolean) " if var is not None else ""
+        variables = {} if var in (None, "omitted") else {"inc": var}
+        sel = "name kind fields%s { name isDeprecated deprecationReason } enumValues%s { name isDeprecated deprecationReason }" % (arg, arg)
+        include_deprecated = (INC == 2) or var is True
+        exp = expected_types(schema, include_deprecated=include_deprecated)
+        if VT:
+            got = []
+            for name in exp:
+                res = graphql_blocking(schema, decl + '{ __type(name: "%s") { %s } }' % (name, sel), variables=variables)
+                if res.errors:
+                    return result(False, True)
+                got.append(res.data["__type"])
+        else:
+            res = graphql_blocking(schema, decl + "{ __schema { types { %s } } }" % sel, variables=variables)
+            if res.errors:
+                return result(False, True)
+            got = res.data["__schema"]["types"]
+        ok = sorted(t["name"] for t in got) == sorted(exp)
+        for t in got:
             e = exp[t["name"]]
-            if e["fields"] is not None:
-                ok = ok and [f["name"] for f in t["fields"]] == [f["name"] for f in e["fields"]]
-            if e["enumValues"] is not None:
-                ok = ok and [v["name"] for v in t["enumValues"]] == [v["name"] for v in e["enumValues"]]
+            # null for kinds that have no such members, a (possibly EMPTY) list otherwise
+            for key in ("fields", "enumValues"):
+                want = None if e[key] is None else [(m["name"], m["isDeprecated"], m["deprecationReason"]) for m in e[key]]
+                have = None if t[key] is None else [(m["name"], m["isDeprecated"], m["deprecationReason"]) for m in t[key]]
+                ok = ok and want == have
     return result(ok, True)
 
 
@@ -239,13 +259,14 @@ def _format_default_kernel(s: str) -> bool:
 CONDITIONS = [
     Cond(
         name="introspect", fn=_introspect, quick=100, thorough=300, per_path=60, shards_quick=12, shards_thorough=12,
-        bound="generator schemas (12 default kinds x 4 recursion patterns, descriptions and deprecations on) and a code-built schema (enum internal values, defaults of every input kind) x 2 executors: "
+        bound="generator schemas (13 default kinds x 4 recursion patterns x deprecation pattern none / some / every member of a type, descriptions on) and a code-built schema (enum internal values, defaults of every input kind) x 2 executors: "
               "the standard introspection query equals a reference computed from the schema objects; every defaultValue parses back (parse_value + value_from_ast) to the declared default",
-        symbolic={"src,default,recursion,cfg": "choice"}, witness={"src": 0, "default": 1, "recursion": 0, "cfg": 0},
+        symbolic={"src,default,recursion,cfg": "choice"}, witness={"src": 0, "default": 1, "recursion": 0, "cfg": 0, "dep": 1},
         assumptions=["oracle: introspection content per spec 4.5 computed from public schema attributes (expected_types)"],
     ),
-    Cond(name="deprecated_filter", fn=_deprecated_filter, quick=60, thorough=60, bound="includeDeprecated absent / false / true on fields and enumValues, 2 schemas",
-         symbolic={"src,include": "choice"}, witness={"src": 0, "include": 1}),
+    Cond(name="deprecated_filter", fn=_deprecated_filter, quick=60, thorough=60, bound="includeDeprecated absent / false / true / through a variable (false, true, omitted) on fields and enumValues x deprecation pattern (none, some, EVERY member of an object type, an interface and an enum) "
+               "x via __schema.types or __type(name:) for every type, 2 schemas: member lists (name, isDeprecated, deprecationReason) equal the reference, null only for kinds without such members",
+         symbolic={"src,include,dep,via_type": "choice"}, witness={"src": 0, "include": 1, "dep": 2, "via_type": False}),
     Cond(name="disabled", fn=_disabled, quick=60, thorough=60, bound="disable_introspection on/off x 4 queries (__schema, __type, __typename, none) x 2 schemas: meta-fields hidden, ordinary field unaffected",
          symbolic={"src,q": "choice"}, witness={"src": 0, "q": 0}),
     Cond(
